@@ -28,7 +28,8 @@ SYS_SLEEP = {35, 230}                      # nanosleep, clock_nanosleep
 SYS_PAUSE = {34, 130, 128}                 # pause, rt_sigsuspend, rt_sigtimedwait
 SYS_WRITE = {1, 20}                        # write, writev (blocked on a full pipe)
 
-ALWAYS_VISIBLE = {"select", "lock-wait", "select-order", "script", "start", "exit"}
+ALWAYS_VISIBLE = {"select", "lock-wait", "select-order", "script", "start", "exit", "log-poll"}
+YIELD_LABELS = ("timer", "poll")   # chosen by default only when nothing else is enabled
 
 
 class SchedError(Exception):
@@ -353,6 +354,8 @@ class Scheduler:
                 d = self.parse_detail(detail)
                 if self.lock_free(int(d["fid"]), d.get("type", "w")):
                     out.append((p.lid, p.pid, kind, "go", detail))
+            elif kind == "log-poll":
+                out.append((p.lid, p.pid, kind, "poll", detail))
             elif kind == "select-order":
                 out.append((p.lid, p.pid, kind, "0", detail))
                 out.append((p.lid, p.pid, kind, "1", detail))
@@ -403,7 +406,7 @@ class Scheduler:
                 break
             gs = self.global_state()
             self.state_hashes.add(gs)
-            if all(c[3] == "timer" for c in choices):
+            if all(c[3] in YIELD_LABELS for c in choices):
                 only_timer_states[gs] = only_timer_states.get(gs, 0) + 1
                 if only_timer_states[gs] >= 8:
                     verdict = "livelock"
@@ -412,12 +415,12 @@ class Scheduler:
             # default: continue the running thread if it has a non-timer choice, else first non-timer, else first
             default = None
             for i, c in enumerate(choices):
-                if c[3] != "timer" and c[3] != "1" and same_thread(c[0], self.last_lid):
+                if c[3] not in YIELD_LABELS and c[3] != "1" and same_thread(c[0], self.last_lid):
                     default = i
                     break
             if default is None:
                 for i, c in enumerate(choices):
-                    if c[3] not in ("timer", "1"):
+                    if c[3] not in YIELD_LABELS and c[3] != "1":
                         default = i
                         break
             if default is None:
